@@ -273,7 +273,22 @@ pub async fn run(g: &G, h: &[Op]) -> hist::RunResult {
             }
             _ => {}
         }
-        sh.take_events();
+        let evs = sh.take_events();
+        if std::env::var("VH_C06_DEBUG").is_ok() {
+            let s: Vec<String> = evs.iter().map(|e| match e {
+                crate::pq::Event::Enter { key, .. } => format!("E{key:?}"),
+                crate::pq::Event::Exit { key, val, .. } => format!("X{key:?}={val:?}"),
+                crate::pq::Event::Read { dep, val, .. } => format!("R{dep:?}={val}"),
+                crate::pq::Event::Req { key, dep } => format!("Q{key:?}>{dep:?}"),
+                crate::pq::Event::FirstUnwind { edges } => format!("U{edges}"),
+            }).collect();
+            eprintln!("step {i} {}: {}", op.short(), s.join(" "));
+            if std::env::var("VH_C06_DEBUG").as_deref() == Ok("2") {
+                for (k, v) in ystore::shadow_dump() {
+                    eprintln!("      {k} = {v}");
+                }
+            }
+        }
     }
     let dump = ystore::shadow_dump();
     ystore::set_shadow(false);
@@ -735,65 +750,96 @@ pub fn check() -> i32 {
                         let it = queue.lock().unwrap().pop();
                         let Some((gi, g)) = it else { break };
                         let alpha = alphabet(&g);
-                        let mut search =
-                            hist::Search::new(alpha.clone(), depth, 2000);
-                        while let Some(h) = search.next() {
-                            let (g2, h2) = (g.clone(), h.clone());
-                            let r = POOL.with(|pool| {
-                                pool.run(move || {
-                                    shuttle::future::block_on(run(&g2, &h2))
-                                })
-                            });
-                            let r = match r {
-                                Ok(r) => r,
-                                Err(f) => {
-                                    let mut rr = hist::RunResult::default();
-                                    rr.canon = format!("failed:{h:?}");
-                                    rr.findings.push(hist::Finding {
-                                        property: "C06",
-                                        step: h.len().saturating_sub(1),
-                                        what: format!(
-                                            "request did not complete: {:?} {}",
-                                            f.kind, f.msg
-                                        ),
-                                        ..Default::default()
-                                    });
-                                    rr
+                        let uses_switch = g.adj.iter().flatten().any(|e| matches!(e, E::Sw(_)));
+                        // second pass: the same search from "all switches on"
+                        // (one session in front of every history, not counted
+                        // in the depth)
+                        let on = Op::Session { writes: vec![W::Set(0, 1), W::Set(1, 1)], commit: true };
+                        for switches_on in [false, true] {
+                            if switches_on && !uses_switch {
+                                continue;
+                            }
+                            let full = |h: &Vec<Op>| -> Vec<Op> {
+                                if switches_on {
+                                    std::iter::once(on.clone()).chain(h.iter().cloned()).collect()
+                                } else {
+                                    h.clone()
                                 }
                             };
-                            search.submit(h, r);
-                        }
-                        let mut t = tot.lock().unwrap();
-                        t.0 += search.stats.runs;
-                        t.1 += search.stats.states;
-                        t.2 += search.stats.transitions;
-                        t.3 = t.3.max(search.stats.max_depth);
-                        drop(t);
-                        for case in search.findings.drain(..).take(3) {
-                            let idx: Vec<usize> = case
-                                .hist
-                                .iter()
-                                .map(|o| alpha.iter().position(|x| x == o).unwrap_or(0))
-                                .collect();
-                            viol.lock().unwrap().push(Violation {
-                                what: format!(
-                                    "graph {}: {} after {:?}",
-                                    g.describe(),
-                                    case.finding.what,
-                                    case.hist.iter().map(Op::short).collect::<Vec<_>>()
-                                ),
-                                tags: tags_of(
+                            // quick tier: the second pass of 3-node graphs one step shallower
+                            let d2 = if switches_on && !thorough && g.n >= 3 { depth - 1 } else { depth };
+                            let mut search = hist::Search::new(alpha.clone(), d2, 2000);
+                            while let Some(h) = search.next() {
+                                let (g2, h2) = (g.clone(), full(&h));
+                                let r = POOL.with(|pool| {
+                                    pool.run(move || shuttle::future::block_on(run(&g2, &h2)))
+                                });
+                                let r = match r {
+                                    Ok(mut r) => {
+                                        // steps are counted without the prefix
+                                        if switches_on {
+                                            for f in &mut r.findings {
+                                                f.step = f.step.saturating_sub(1);
+                                                f.fstep = f.fstep.saturating_sub(1);
+                                            }
+                                        }
+                                        r
+                                    }
+                                    Err(f) => {
+                                        let mut rr = hist::RunResult::default();
+                                        rr.canon = format!("failed:{h:?}");
+                                        rr.findings.push(hist::Finding {
+                                            property: "C06",
+                                            step: h.len().saturating_sub(1),
+                                            what: format!("request did not complete: {:?} {}", f.kind, f.msg),
+                                            ..Default::default()
+                                        });
+                                        rr
+                                    }
+                                };
+                                search.submit(h, r);
+                            }
+                            let mut t = tot.lock().unwrap();
+                            t.0 += search.stats.runs;
+                            t.1 += search.stats.states;
+                            t.2 += search.stats.transitions;
+                            t.3 = t.3.max(search.stats.max_depth);
+                            drop(t);
+                            // at most 2 cases per classification and graph
+                            let mut kept: Vec<Vec<String>> = Vec::new();
+                            for case in search.findings.drain(..) {
+                                let fh = full(&case.hist);
+                                let off = usize::from(switches_on);
+                                let tags = tags_of(
                                     &g,
-                                    inputs_after(&case.hist, case.finding.step),
-                                    &inputs_before(&case.hist, case.finding.step + 1),
+                                    inputs_after(&fh, case.finding.step + off),
+                                    &inputs_before(&fh, case.finding.step + off + 1),
                                     case.finding.key.and_then(|k| match k {
                                         Key::C(j) => Some(j as usize),
                                         _ => None,
                                     }),
-                                ),
-                                replay: json!({"check": "c06h", "thorough": thorough,
-                                    "graph_index": gi, "history_idx": idx}),
-                            });
+                                );
+                                if kept.iter().filter(|t| **t == tags).count() >= 2 {
+                                    continue;
+                                }
+                                kept.push(tags.clone());
+                                let idx: Vec<usize> = case
+                                    .hist
+                                    .iter()
+                                    .map(|o| alpha.iter().position(|x| x == o).unwrap_or(0))
+                                    .collect();
+                                viol.lock().unwrap().push(Violation {
+                                    what: format!(
+                                        "graph {}: {} after {:?}",
+                                        g.describe(),
+                                        case.finding.what,
+                                        fh.iter().map(Op::short).collect::<Vec<_>>()
+                                    ),
+                                    tags,
+                                    replay: json!({"check": "c06h", "thorough": thorough,
+                                        "graph_index": gi, "history_idx": idx, "switches_on_first": switches_on}),
+                                });
+                            }
                         }
                     }
                 })
@@ -881,12 +927,15 @@ pub fn replay(v: &Value) -> i32 {
     }
     let g = universe(thorough)[v["graph_index"].as_u64().unwrap() as usize].clone();
     let a = alphabet(&g);
-    let h: Vec<Op> = v["history_idx"]
+    let mut h: Vec<Op> = v["history_idx"]
         .as_array()
         .unwrap()
         .iter()
         .map(|i| a[i.as_u64().unwrap() as usize].clone())
         .collect();
+    if v["switches_on_first"].as_bool().unwrap_or(false) {
+        h.insert(0, Op::Session { writes: vec![W::Set(0, 1), W::Set(1, 1)], commit: true });
+    }
     println!("graph {}: {:?}", g.describe(), h.iter().map(Op::short).collect::<Vec<_>>());
     let r = xplore::run_default(move || shuttle::future::block_on(run(&g, &h)));
     match r {
